@@ -220,6 +220,7 @@ func runC01(w *World, r *Report) {
 	createdVertexParentsValidated(w, r, "confirm-only-validated")
 	// a vertex admitted without an edge from each declared parent is a root, and roots are exempt from the funds check
 	parentsExist(w, r, "admitted-vertex-has-its-parents")
+	checkpointCountsOnlyTheWalked(w, r, "checkpoint-counts-only-the-walked")
 
 	// ---- 2. a failing tip is dropped together with its index entry
 	r.rule("drop-with-index", "from the failure edge of validateLeaf(ctx, v) every path to an exit or to the next validation passes DeleteVertex(v.Hash) and removeTrxInVertex(v.Transaction.Hash)", 4)
